@@ -55,6 +55,7 @@ class FBB(int):
 
 
 _FRESH = [0]
+NOT_FOLLOWED = set()
 
 
 class PathEnum:
@@ -325,6 +326,8 @@ class PathEnum:
                 if t.get("target") is not None and path in self.facts.fns and ((self.inline_new and self.depth < 3 and path not in known_fns()) or (self.inline_also is not None and self.depth < 6 and self.inline_also(path, args))):
                     self._inline(path, args, t, env, conds, trace, events, onpath, ebb)
                     return
+                if self.inline_new and path in self.facts.fns and path not in known_fns() and t.get("target") is not None:
+                    NOT_FOLLOWED.add(path)    # a new helper beyond the inlining bound: reported by the runner (fail closed)
                 events = events + [("call", ebb, None, path, ct, t)]
                 # `?` on a literal Ok/Err folds
                 if path == "std::ops::Try::branch" and args and args[0][0] == "agg" and args[0][2] in ("Ok", "Err") and adt_base(args[0][1]) == "std::result::Result":
